@@ -190,6 +190,16 @@ def _extract_items(src, names, drop_variants):
         timpls = [it for it in items if it.kind == 'impl' and nm.startswith('impl:') and ' for ' in nm and it.trait is not None and (it.trait + ' for ' + it.impl_of) == nm[5:]]
         if nm.startswith('mod:'):
             found = [it for it in items if it.kind == 'mod' and it.name == nm[4:]]
+        if nm.startswith('fn:'):
+            ty, fname = nm[3:].split('::')
+            hit = None
+            for it in items:
+                if it.kind == 'impl' and it.trait is None and it.impl_of == ty:
+                    for ch in it.children:
+                        if ch.kind == 'fn' and ch.name == fname: hit = ch
+            if hit is None: raise Unsupported(f'lost anchor: item {nm} not found')
+            out.append(f'impl {ty} {{\n' + src[hit.attrs_start:hit.end] + '\n}')
+            continue
         allf = found + impls + timpls
         if not allf:
             raise Unsupported(f'lost anchor: item {nm} not found')
